@@ -108,6 +108,251 @@ theorem normFactors_fok {fs : List (Int × Nat)} (h : FOK fs) : FOK (normFactors
       · rw [FOK_cons]; exact ⟨Or.inl rfl, ih h.2⟩
     · rw [FOK_cons]; exact ⟨h.1, ih h.2⟩
 
+/-! ### duplicate prime entries
+
+`combine` merges the factor lists entry by entry but appends the squared cofactor as a NEW entry,
+so a prime can have several entries. Only the first entry of a prime is ever increased
+(`bump`), and every appended duplicate has exponent 2: in every relation the store builds, all
+entries of a prime except the first have EVEN exponents (`TailEven`). Hence the parity of the
+total exponent of a prime equals the OR of the parities of its entries, which is what the matrix
+of `final_step` uses (`BitVec::set`). -/
+
+def TailEven : List (Int × Nat) → Prop
+  | [] => True
+  | (p, _) :: t => (∀ f ∈ t, f.1 = p → f.2 % 2 = 0) ∧ TailEven t
+
+instance TailEven.dec : (fs : List (Int × Nat)) → Decidable (TailEven fs)
+  | [] => isTrue trivial
+  | (p, _) :: t => by
+    unfold TailEven
+    have := TailEven.dec t
+    infer_instance
+
+theorem tailEven_cons {p : Int} {k : Nat} {t : List (Int × Nat)} :
+    TailEven ((p, k) :: t) ↔ (∀ f ∈ t, f.1 = p → f.2 % 2 = 0) ∧ TailEven t := Iff.rfl
+
+theorem tailEven_append_even : ∀ {fs : List (Int × Nat)} {p : Int} {k : Nat},
+    TailEven fs → k % 2 = 0 → TailEven (fs ++ [(p, k)]) := by
+  intro fs
+  induction fs with
+  | nil => intro p k _ _; exact ⟨(fun f hf => by cases hf), trivial⟩
+  | cons e t ih =>
+    obtain ⟨q, kq⟩ := e
+    intro p k h hk
+    rw [tailEven_cons] at h
+    rw [List.cons_append, tailEven_cons]
+    refine ⟨?_, ih h.2 hk⟩
+    intro f hf hfq
+    rcases List.mem_append.mp hf with hf | hf
+    · exact h.1 f hf hfq
+    · simp only [List.mem_singleton] at hf
+      rw [hf]; exact hk
+
+theorem tailEven_append_new : ∀ {fs : List (Int × Nat)} {p : Int} {k : Nat},
+    TailEven fs → hasPrime p fs = false → TailEven (fs ++ [(p, k)]) := by
+  intro fs
+  induction fs with
+  | nil => intro p k _ _; exact ⟨(fun f hf => by cases hf), trivial⟩
+  | cons e t ih =>
+    obtain ⟨q, kq⟩ := e
+    intro p k h hp
+    rw [tailEven_cons] at h
+    simp only [hasPrime, List.any_cons, Bool.or_eq_false_iff, beq_eq_false_iff_ne, ne_eq] at hp
+    rw [List.cons_append, tailEven_cons]
+    refine ⟨?_, ih h.2 hp.2⟩
+    intro f hf hfq
+    rcases List.mem_append.mp hf with hf | hf
+    · exact h.1 f hf hfq
+    · simp only [List.mem_singleton] at hf
+      rw [hf] at hfq
+      exact absurd hfq.symm hp.1
+
+theorem bump_mem (p : Int) (k : Nat) : ∀ (fs fs' : List (Int × Nat)), bump p k fs = .ok fs' →
+    ∀ f ∈ fs', f ∈ fs ∨ f.1 = p := by
+  intro fs
+  induction fs with
+  | nil => intro fs' h f hf; simp only [bump, pure_eq_ok] at h; subst h; cases hf
+  | cons e t ih =>
+    obtain ⟨p', k'⟩ := e
+    intro fs' h f hf
+    unfold bump at h
+    split at h
+    · rename_i hpp
+      split at h
+      · simp only [pure_eq_ok] at h
+        subst h
+        rcases List.mem_cons.mp hf with hf | hf
+        · right; rw [hf]; exact hpp
+        · left; exact List.mem_cons_of_mem _ hf
+      · simp [throw_ne_ok] at h
+    · simp only [bind_eq_ok, pure_eq_ok] at h
+      obtain ⟨t', ht', h⟩ := h
+      subst h
+      rcases List.mem_cons.mp hf with hf | hf
+      · left; rw [hf]; exact List.mem_cons_self
+      · rcases ih t' ht' f hf with h1 | h1
+        · left; exact List.mem_cons_of_mem _ h1
+        · right; exact h1
+
+theorem bump_tailEven (p : Int) (k : Nat) : ∀ (fs fs' : List (Int × Nat)),
+    bump p k fs = .ok fs' → TailEven fs → TailEven fs' := by
+  intro fs
+  induction fs with
+  | nil => intro fs' h _; simp only [bump, pure_eq_ok] at h; subst h; trivial
+  | cons e t ih =>
+    obtain ⟨p', k'⟩ := e
+    intro fs' h hte
+    rw [tailEven_cons] at hte
+    unfold bump at h
+    split at h
+    · split at h
+      · simp only [pure_eq_ok] at h
+        subst h
+        exact tailEven_cons.mpr hte
+      · simp [throw_ne_ok] at h
+    · rename_i hne
+      simp only [bind_eq_ok, pure_eq_ok] at h
+      obtain ⟨t', ht', h⟩ := h
+      subst h
+      rw [tailEven_cons]
+      refine ⟨?_, ih t' ht' hte.2⟩
+      intro f hf hfp
+      rcases bump_mem p k t t' ht' f hf with h1 | h1
+      · exact hte.1 f h1 hfp
+      · exact absurd (hfp.symm.trans h1) hne
+
+theorem mergeFactors_tailEven : ∀ (fs acc out : List (Int × Nat)),
+    mergeFactors acc fs = .ok out → TailEven acc → TailEven out := by
+  intro fs
+  induction fs with
+  | nil => intro acc out h ha; simp only [mergeFactors, pure_eq_ok] at h; subst h; exact ha
+  | cons f t ih =>
+    obtain ⟨p, k⟩ := f
+    intro acc out h ha
+    unfold mergeFactors at h
+    split at h
+    · simp only [bind_eq_ok] at h
+      obtain ⟨acc', hb, h⟩ := h
+      exact ih acc' out h (bump_tailEven p k acc acc' hb ha)
+    · rename_i hp
+      exact ih _ out h (tailEven_append_new ha (by simpa using hp))
+
+theorem normFactors_mem : ∀ {fs : List (Int × Nat)} {f : Int × Nat}, f ∈ normFactors fs →
+    ∃ g ∈ fs, g.1 = f.1 ∧ g.2 % 2 = f.2 % 2 := by
+  intro fs
+  induction fs with
+  | nil => intro f hf; cases hf
+  | cons e t ih =>
+    obtain ⟨p, k⟩ := e
+    intro f hf
+    rw [normFactors_cons] at hf
+    have lift : (∃ g ∈ t, g.1 = f.1 ∧ g.2 % 2 = f.2 % 2) →
+        ∃ g ∈ (p, k) :: t, g.1 = f.1 ∧ g.2 % 2 = f.2 % 2 :=
+      fun ⟨g, hg, h⟩ => ⟨g, List.mem_cons_of_mem _ hg, h⟩
+    split at hf
+    · rename_i hp
+      split at hf
+      · exact lift (ih hf)
+      · rename_i hodd
+        rcases List.mem_cons.mp hf with hf | hf
+        · refine ⟨(p, k), List.mem_cons_self, ?_, ?_⟩
+          · rw [hf]; exact hp
+          · rw [hf]; simp only; omega
+        · exact lift (ih hf)
+    · rcases List.mem_cons.mp hf with hf | hf
+      · exact ⟨(p, k), List.mem_cons_self, by rw [hf], by rw [hf]⟩
+      · exact lift (ih hf)
+
+theorem normFactors_tailEven : ∀ {fs : List (Int × Nat)}, TailEven fs → TailEven (normFactors fs) := by
+  intro fs
+  induction fs with
+  | nil => intro h; exact h
+  | cons e t ih =>
+    obtain ⟨p, k⟩ := e
+    intro h
+    rw [tailEven_cons] at h
+    have hrest : ∀ f ∈ normFactors t, f.1 = p → f.2 % 2 = 0 := by
+      intro f hf hfp
+      obtain ⟨g, hg, h1, h2⟩ := normFactors_mem hf
+      rw [← h2]; exact h.1 g hg (h1.trans hfp)
+    rw [normFactors_cons]
+    split
+    · rename_i hp
+      split
+      · exact ih h.2
+      · rw [tailEven_cons]
+        exact ⟨fun f hf hfp => hrest f hf (hfp.trans hp.symm), ih h.2⟩
+    · rw [tailEven_cons]; exact ⟨hrest, ih h.2⟩
+
+/-- `combine` keeps duplicate entries even (the appended cofactor has exponent 2) -/
+theorem combine_tailEven {n : Nat} {r1 r2 rr : Relation} (h : combine n r1 r2 = .ok rr)
+    (h1 : TailEven r1.factors) : TailEven rr.factors := by
+  obtain ⟨_, _, fs, hfs, hf⟩ := combine_divisor h
+  rw [hf]
+  exact tailEven_append_even (mergeFactors_tailEven _ _ _ hfs h1) (by decide)
+
+/-- total exponent of the prime `p` -/
+def totalExp (p : Int) : List (Int × Nat) → Nat
+  | [] => 0
+  | (q, k) :: t => (if q = p then k else 0) + totalExp p t
+
+/-- the parity bit `final_step` computes for `p` (OR over the entries) -/
+def orParity (p : Int) (fs : List (Int × Nat)) : Bool := fs.any (fun f => f.1 == p && f.2 % 2 == 1)
+
+theorem allEven_parity (q : Int) : ∀ (t : List (Int × Nat)), (∀ f ∈ t, f.1 = q → f.2 % 2 = 0) →
+    totalExp q t % 2 = 0 ∧ ¬ (t.any (fun f => f.1 == q && f.2 % 2 == 1) = true) := by
+  intro t
+  induction t with
+  | nil => intro _; simp [totalExp]
+  | cons e t ih =>
+    obtain ⟨q', k'⟩ := e
+    intro h
+    have h1 := h (q', k') List.mem_cons_self
+    obtain ⟨h2, h3⟩ := ih (fun f hf => h f (List.mem_cons_of_mem _ hf))
+    simp only [totalExp, List.any_cons, Bool.or_eq_true, Bool.and_eq_true, beq_iff_eq, not_or]
+    by_cases hqq : q' = q
+    · have := h1 hqq
+      simp only at this
+      rw [if_pos hqq]
+      refine ⟨by omega, ?_, h3⟩
+      rintro ⟨_, ho⟩; omega
+    · rw [if_neg hqq]
+      refine ⟨by simpa using h2, ?_, h3⟩
+      rintro ⟨hc, _⟩; exact hqq hc
+
+/-- with `TailEven`, the OR of the entry parities is the parity of the total exponent -/
+theorem tailEven_parity (p : Int) : ∀ {fs : List (Int × Nat)}, TailEven fs →
+    (orParity p fs = true ↔ totalExp p fs % 2 = 1) := by
+  intro fs
+  induction fs with
+  | nil => intro _; simp [orParity, totalExp]
+  | cons e t ih =>
+    obtain ⟨q, k⟩ := e
+    intro h
+    rw [tailEven_cons] at h
+    have iht := ih h.2
+    unfold orParity at iht ⊢
+    simp only [List.any_cons, totalExp, Bool.or_eq_true, Bool.and_eq_true, beq_iff_eq]
+    by_cases hq : q = p
+    · subst hq
+      obtain ⟨hev1, hev2⟩ := allEven_parity q t h.1
+      simp only [if_true]
+      constructor
+      · rintro (⟨_, ho⟩ | ho)
+        · omega
+        · exact absurd ho hev2
+      · intro ho
+        left
+        exact ⟨trivial, by omega⟩
+    · rw [if_neg hq]
+      simp only [Nat.zero_add]
+      constructor
+      · rintro (⟨hc, _⟩ | ho)
+        · exact absurd hc hq
+        · exact iht.mp ho
+      · intro ho
+        exact Or.inr (iht.mpr ho)
+
 /-- `combine r rp` with a stored `rp` whose cofactor is the usable large prime `p` -/
 theorem combine_stored2 {n : Nat} {r rp rr : Relation} {p : Nat} (h : combine n r rp = .ok rr)
     (hr : FOK r.factors) (hp : FOK rp.factors) (hc : rp.cofactor = p) (hdvd : r.cofactor % p = 0)
@@ -120,24 +365,28 @@ theorem combine_stored2 {n : Nat} {r rp rr : Relation} {p : Nat} (h : combine n 
   exact ⟨mergeFactors_fok _ _ _ hfs hr hp, FOK_cons.mpr ⟨factorOK_large hl, FOK_nil⟩⟩
 
 /-- a packed relation decodes to something that can be packed again -/
-def GoodF (b : List Nat) : Prop := ∃ r, unpack b = .ok r ∧ FOK r.factors ∧ 0 < r.cyclelen
+def GoodF (b : List Nat) : Prop :=
+  ∃ r, unpack b = .ok r ∧ FOK r.factors ∧ 0 < r.cyclelen ∧ TailEven r.factors
 
 theorem goodF_of_pack {r : Relation} {b : List Nat} (h : pack r = .ok b) (hty : Typed r)
-    (hno : NoOne r.factors) (hf : FOK r.factors) (hl : 0 < r.cyclelen) : GoodF b :=
-  ⟨_, unpack_pack' h hty hno, normFactors_fok hf, hl⟩
+    (hno : NoOne r.factors) (hf : FOK r.factors) (hl : 0 < r.cyclelen) (hte : TailEven r.factors) :
+    GoodF b :=
+  ⟨_, unpack_pack' h hty hno, normFactors_fok hf, hl, normFactors_tailEven hte⟩
 
 structure Inv2 (s : Store) : Prop where
   par : ∀ e ∈ s.partials, LargeOK e.1 ∧ GoodF e.2
   dbl : ∀ e ∈ s.doubles, LargeOK e.1.1 ∧ LargeOK e.1.2 ∧ GoodF e.2
+  cyc : ∀ r ∈ s.cycles, TailEven r.factors
 
 theorem inv2_new (n fbsize maxlarge : Nat) : Inv2 (Store.new n fbsize maxlarge) := by
-  refine ⟨?_, ?_⟩
+  refine ⟨?_, ?_, ?_⟩
+  · intro e he; cases he
   · intro e he; cases he
   · intro e he; cases he
 
 theorem inv2_setPartial {s : Store} (h : Inv2 s) {p : Nat} {b : List Nat} (hp : LargeOK p)
     (hg : GoodF b) : Inv2 (s.setPartial p b) := by
-  refine ⟨?_, h.dbl⟩
+  refine ⟨?_, h.dbl, h.cyc⟩
   intro e he
   simp only [Store.setPartial] at he
   rw [mem_ainsert] at he
@@ -145,11 +394,16 @@ theorem inv2_setPartial {s : Store} (h : Inv2 s) {p : Nat} {b : List Nat} (hp : 
   · subst he; exact ⟨hp, hg⟩
   · exact h.par e he
 
-theorem addCycle_inv2 {r : Relation} {s s' : Store} (h : addCycle r s = .ok s') (hi : Inv2 s) :
-    Inv2 s' := by
+theorem addCycle_inv2 {r : Relation} {s s' : Store} (h : addCycle r s = .ok s') (hi : Inv2 s)
+    (hte : TailEven r.factors) : Inv2 s' := by
   obtain ⟨_, _, hs⟩ := addCycle_ok h
   subst hs
-  exact ⟨hi.par, hi.dbl⟩
+  refine ⟨hi.par, hi.dbl, ?_⟩
+  intro r' hr'
+  simp only [List.mem_append, List.mem_singleton] at hr'
+  rcases hr' with hr' | hr'
+  · exact hi.cyc r' hr'
+  · rw [hr']; exact hte
 
 /-- the part of a relation's contract that `Inv2` needs -/
 structure RelOK2 (r : Relation) : Prop where
@@ -157,13 +411,14 @@ structure RelOK2 (r : Relation) : Prop where
   noOne : NoOne r.factors
   fok : FOK r.factors
   clen : 0 < r.cyclelen
+  te : TailEven r.factors
 
 theorem relOK2_of_unpack {b : List Nat} {r : Relation} (h : unpack b = .ok r) (hg : GoodF b) :
     RelOK2 r := by
-  obtain ⟨r', hu, hf, hl⟩ := hg
+  obtain ⟨r', hu, hf, hl, hte⟩ := hg
   rw [h] at hu; cases hu
   obtain ⟨ht, hn, _⟩ := unpack_facts h
-  exact ⟨ht, hn, hf, hl⟩
+  exact ⟨ht, hn, hf, hl, hte⟩
 
 theorem combineSingle_inv2 {r : Relation} {s s' : Store} {done : Bool}
     (h : combineSingle r s = .ok (done, s')) (hi : Inv2 s) (hr : RelOK2 r) : Inv2 s' := by
@@ -174,19 +429,19 @@ theorem combineSingle_inv2 {r : Relation} {s s' : Store} {done : Bool}
   · rename_i blob hlook
     obtain ⟨hl, _⟩ := hi.par _ (alookup_mem hlook)
     simp only [bind_eq_ok] at h
-    obtain ⟨r0, _, rr, _, h⟩ := h
+    obtain ⟨r0, _, rr, hcomb, h⟩ := h
     split at h
     · simp only [pure_eq_ok, Prod.mk.injEq] at h
       rw [← h.2]; exact hi
     · split at h
       · simp only [bind_eq_ok] at h
         obtain ⟨s1, hs1, h⟩ := h
-        have hi1 := addCycle_inv2 hs1 hi
+        have hi1 := addCycle_inv2 hs1 hi (combine_tailEven hcomb hr.te)
         split at h
         · simp only [bind_eq_ok, pure_eq_ok, Prod.mk.injEq] at h
           obtain ⟨b, hb, _, h⟩ := h
           rw [← h]
-          exact inv2_setPartial hi1 hl (goodF_of_pack hb hr.typed hr.noOne hr.fok hr.clen)
+          exact inv2_setPartial hi1 hl (goodF_of_pack hb hr.typed hr.noOne hr.fok hr.clen hr.te)
         · simp only [pure_eq_ok, Prod.mk.injEq] at h
           rw [← h.2]; exact hi1
       · simp [throw_ne_ok] at h
@@ -204,12 +459,12 @@ theorem combineDouble_inv2 {walk : Nat → Store → M Store} (hwalk : WalkInv2 
   have hq1 := hq.ne1
   have hp32 := hp.lt32
   have hq32 := hq.lt32
-  obtain ⟨hrt, hrn, hrf, hrl⟩ := hr
+  obtain ⟨hrt, hrn, hrf, hrl, hrte⟩ := hr
   unfold combineDouble at h
   split at h
   · simp only [bind_eq_ok, pure_eq_ok, Prod.mk.injEq] at h
     obtain ⟨s1, hs1, _, h⟩ := h
-    rw [← h]; exact addCycle_inv2 hs1 hi2
+    rw [← h]; exact addCycle_inv2 hs1 hi2 (tailEven_append_even hrte (by decide))
   · split at h
     · rename_i bp bq hlp hlq
       obtain ⟨_, _, rp', hup', hcp, hvp⟩ := hi.par _ (alookup_mem hlp)
@@ -221,7 +476,7 @@ theorem combineDouble_inv2 {walk : Nat → Store → M Store} (hwalk : WalkInv2 
       obtain ⟨rp, hup, rq, huq, r1, hr1, r2, hr2, s1, hs1, h⟩ := h
       rw [hup'] at hup; cases hup
       rw [huq'] at huq; cases huq
-      have hi1 := addCycle_inv2 hs1 hi2
+      have hi1 := addCycle_inv2 hs1 hi2 (combine_tailEven hr2 (combine_tailEven hr1 hrte))
       split at h
       · simp only [bind_eq_ok] at h
         obtain ⟨rpq, hrpq, h⟩ := h
@@ -235,7 +490,7 @@ theorem combineDouble_inv2 {walk : Nat → Store → M Store} (hwalk : WalkInv2 
           have h4 := combine_stored2 hrpq hrf gp.fok hcp
             (by rw [hc]; exact Nat.mul_mod_right _ _) hp
           exact inv2_setPartial hi1 hq
-            (goodF_of_pack hb h3.2.1 h3.2.2.1 h4.1 (by rw [h4.2]; omega))
+            (goodF_of_pack hb h3.2.1 h3.2.2.1 h4.1 (by rw [h4.2]; omega) (combine_tailEven hrpq hrte))
       · split at h
         · simp only [bind_eq_ok] at h
           obtain ⟨rqp, hrqp, h⟩ := h
@@ -249,7 +504,7 @@ theorem combineDouble_inv2 {walk : Nat → Store → M Store} (hwalk : WalkInv2 
             have h4 := combine_stored2 hrqp hrf gq.fok hcq
               (by rw [hc]; exact Nat.mul_mod_left _ _) hq
             exact inv2_setPartial hi1 hp
-              (goodF_of_pack hb h3.2.1 h3.2.2.1 h4.1 (by rw [h4.2]; omega))
+              (goodF_of_pack hb h3.2.1 h3.2.2.1 h4.1 (by rw [h4.2]; omega) (combine_tailEven hrqp hrte))
         · simp only [pure_eq_ok, Prod.mk.injEq] at h
           rw [← h.2]; exact hi1
     · rename_i bp hlp hlq
@@ -271,9 +526,10 @@ theorem combineDouble_inv2 {walk : Nat → Store → M Store} (hwalk : WalkInv2 
         rw [← h]
         have hi0 : Inv { s with nCombined12 := s.nCombined12 + 1 } :=
           ⟨hi.cyc, hi.par, hi.dbl, hi.rev⟩
-        have hi20 : Inv2 { s with nCombined12 := s.nCombined12 + 1 } := ⟨hi2.par, hi2.dbl⟩
+        have hi20 : Inv2 { s with nCombined12 := s.nCombined12 + 1 } := ⟨hi2.par, hi2.dbl, hi2.cyc⟩
         refine hwalk _ _ _ (inv_setPartial hi0 hq1 hq32 ?_) (inv2_setPartial hi20 hq
-          (goodF_of_pack hb h3.2.1 h3.2.2.1 h4.1 (by rw [h4.2]; omega))) hn hs1
+          (goodF_of_pack hb h3.2.1 h3.2.2.1 h4.1 (by rw [h4.2]; omega)
+            (combine_tailEven hrq hrte))) hn hs1
         rw [← hcof]
         exact goodP_of_pack hb h3.2.1 h3.2.2.1 (lt_of_lt_of_le h3.2.2.2.1 hn) h3.1
     · rename_i bq hlp hlq
@@ -295,9 +551,10 @@ theorem combineDouble_inv2 {walk : Nat → Store → M Store} (hwalk : WalkInv2 
         rw [← h]
         have hi0 : Inv { s with nCombined12 := s.nCombined12 + 1 } :=
           ⟨hi.cyc, hi.par, hi.dbl, hi.rev⟩
-        have hi20 : Inv2 { s with nCombined12 := s.nCombined12 + 1 } := ⟨hi2.par, hi2.dbl⟩
+        have hi20 : Inv2 { s with nCombined12 := s.nCombined12 + 1 } := ⟨hi2.par, hi2.dbl, hi2.cyc⟩
         refine hwalk _ _ _ (inv_setPartial hi0 hp1 hp32 ?_) (inv2_setPartial hi20 hp
-          (goodF_of_pack hb h3.2.1 h3.2.2.1 h4.1 (by rw [h4.2]; omega))) hn hs1
+          (goodF_of_pack hb h3.2.1 h3.2.2.1 h4.1 (by rw [h4.2]; omega)
+            (combine_tailEven hrp hrte))) hn hs1
         rw [← hcof]
         exact goodP_of_pack hb h3.2.1 h3.2.2.1 (lt_of_lt_of_le h3.2.2.2.1 hn) h3.1
     · simp only [pure_eq_ok, Prod.mk.injEq] at h
@@ -305,7 +562,7 @@ theorem combineDouble_inv2 {walk : Nat → Store → M Store} (hwalk : WalkInv2 
 
 theorem inv2_erase_double {s : Store} (hi : Inv2 s) (p q : Nat) :
     Inv2 { s with doubles := aerase (p, q) s.doubles, doublesRev := serase (q, p) s.doublesRev } :=
-  ⟨hi.par, fun e he => hi.dbl e (mem_aerase.mp he).1⟩
+  ⟨hi.par, fun e he => hi.dbl e (mem_aerase.mp he).1, hi.cyc⟩
 
 theorem walkStep_inv2 {walk : Nat → Store → M Store} (hwalk : WalkInv2 walk)
     {p q : Nat} {s s' : Store} (h : walkStep walk p q s = .ok s') (hi : Inv s) (hi2 : Inv2 s)
@@ -421,20 +678,21 @@ structure InputOK2 (s : Store) (r : Relation) (pq : Option (Nat × Nat)) : Prop 
   clen : 0 < r.cyclelen
   single : r.cofactor ≠ 1 → r.cofactor < s.maxlarge → LargeOK r.cofactor
   pairOK : ∀ p q, pq = some (p, q) → s.maxlarge ≤ r.cofactor → LargeOK p ∧ LargeOK q
+  te : TailEven r.factors
 
 theorem InputOK2.rel {s : Store} {r : Relation} {pq : Option (Nat × Nat)} (h : InputOK2 s r pq) :
-    RelOK2 r := ⟨h.base.typed, h.base.noOne, h.fok, h.clen⟩
+    RelOK2 r := ⟨h.base.typed, h.base.noOne, h.fok, h.clen, h.te⟩
 
 theorem add_inv2 {r : Relation} {pq : Option (Nat × Nat)} {s s' : Store}
     (h : add r pq s = .ok s') (hi : Inv s) (hi2 : Inv2 s) (hn : s.n ≤ X512)
     (hin : InputOK2 s r pq) : Inv2 s' := by
   have hrel := hin.rel
-  obtain ⟨⟨hrt, hrv, hrn, hpair⟩, hx, hrf, hrl, hsingle, hpairOK⟩ := hin
+  obtain ⟨⟨hrt, hrv, hrn, hpair⟩, hx, hrf, hrl, hsingle, hpairOK, hrte⟩ := hin
   unfold add at h
   split at h
   · simp [throw_ne_ok] at h
   · split at h
-    · exact addCycle_inv2 h hi2
+    · exact addCycle_inv2 h hi2 hrte
     · rename_i hc1
       split at h
       · rename_i hlt
@@ -442,7 +700,7 @@ theorem add_inv2 {r : Relation} {pq : Option (Nat × Nat)} {s s' : Store}
         simp only [bind_eq_ok] at h
         obtain ⟨res, hres, h⟩ := h
         have hi0 : Inv { s with nPartials := s.nPartials + 1 } := ⟨hi.cyc, hi.par, hi.dbl, hi.rev⟩
-        have hi20 : Inv2 { s with nPartials := s.nPartials + 1 } := ⟨hi2.par, hi2.dbl⟩
+        have hi20 : Inv2 { s with nPartials := s.nPartials + 1 } := ⟨hi2.par, hi2.dbl, hi2.cyc⟩
         have hk1 : Keeps { s with nPartials := s.nPartials + 1 } res.2 :=
           combineSingle_keeps (done := res.1) (s' := res.2) hres hi0 hn hrt hrn hrv hx
         have j1 := combineSingle_inv2 (done := res.1) (s' := res.2) hres hi20 hrel
@@ -459,7 +717,7 @@ theorem add_inv2 {r : Relation} {pq : Option (Nat × Nat)} {s s' : Store}
               rw [hk1.1]
               exact goodP_of_pack hb hrt hrn (lt_of_lt_of_le hx hn) hrv
             exact walkDoubles_inv2 _ _ _ _ hi2' (inv2_setPartial j1 hl
-              (goodF_of_pack hb hrt hrn hrf hrl)) hn1 h
+              (goodF_of_pack hb hrt hrn hrf hrl hrte)) hn1 h
       · rename_i hge
         split at h
         · simp only [pure_eq_ok] at h
@@ -472,7 +730,7 @@ theorem add_inv2 {r : Relation} {pq : Option (Nat × Nat)} {s s' : Store}
           · simp only [bind_eq_ok] at h
             obtain ⟨res, hres, h⟩ := h
             have hi0 : Inv { s with nDoubles := s.nDoubles + 1 } := ⟨hi.cyc, hi.par, hi.dbl, hi.rev⟩
-            have hi20 : Inv2 { s with nDoubles := s.nDoubles + 1 } := ⟨hi2.par, hi2.dbl⟩
+            have hi20 : Inv2 { s with nDoubles := s.nDoubles + 1 } := ⟨hi2.par, hi2.dbl, hi2.cyc⟩
             have j1 := combineDouble_inv2 (walkDoubles_inv2 _) (done := res.1) (s' := res.2) hres
               hi0 hi20 hn hrel hrv hc hp hq
             split at h
@@ -481,15 +739,39 @@ theorem add_inv2 {r : Relation} {pq : Option (Nat × Nat)} {s s' : Store}
             · simp only [bind_eq_ok, pure_eq_ok] at h
               obtain ⟨b, hb, h⟩ := h
               rw [← h]
-              refine ⟨j1.par, ?_⟩
+              refine ⟨j1.par, ?_, j1.cyc⟩
               intro e he
               rw [mem_ainsert] at he
               rcases he with he | ⟨he, _⟩
               · subst he
-                have hg := goodF_of_pack hb hrt hrn hrf hrl
+                have hg := goodF_of_pack hb hrt hrn hrf hrl hrte
                 by_cases hlt : p < q
                 · simp only [if_pos hlt]; exact ⟨hp, hq, hg⟩
                 · simp only [if_neg hlt]; exact ⟨hq, hp, hg⟩
               · exact j1.dbl e he
+
+/-- contract of a whole history, complete form -/
+def HistoryOK2 (n maxlarge : Nat) (ops : List (Relation × Option (Nat × Nat))) : Prop :=
+  ∀ op ∈ ops, ∀ s : Store, s.n = n → s.maxlarge = maxlarge → InputOK2 s op.1 op.2
+
+theorem runHistory_inv2 : ∀ (ops : List (Relation × Option (Nat × Nat))) (s s' : Store),
+    runHistory ops s = .ok s' → Inv s → Inv2 s → s.n ≤ X512 → HistoryOK2 s.n s.maxlarge ops →
+    Inv2 s' := by
+  intro ops
+  induction ops with
+  | nil =>
+    intro s s' h _ hi2 _ _
+    simp only [runHistory, pure_eq_ok] at h
+    rw [← h]; exact hi2
+  | cons op t ih =>
+    obtain ⟨r, pq⟩ := op
+    intro s s' h hi hi2 hn hok
+    simp only [runHistory, bind_eq_ok] at h
+    obtain ⟨s1, hs1, h⟩ := h
+    have hin := hok (r, pq) List.mem_cons_self s rfl rfl
+    have hk := add_keeps hs1 hi hn hin.base
+    refine ih s1 s' h hk.2.2 (add_inv2 hs1 hi hi2 hn hin) (by rw [hk.1]; exact hn) ?_
+    intro op hop s'' h1 h2
+    exact hok op (List.mem_cons_of_mem _ hop) s'' (by rw [h1, hk.1]) (by rw [h2, hk.2.1])
 
 end Ymq.Relations
